@@ -199,319 +199,6 @@ def mapT (f : Nat → Nat) : Insn → Insn
   | .lookupswitch d pairs => .lookupswitch (f d) (pairs.map fun kt => (kt.1, f kt.2))
   | i => i
 
-/-! ## the whole `Code` attribute -/
-
-/-- all instructions of a method are legally encoded; the code array is non-empty and shorter than 65536 bytes -/
-structure CodeLegal (p : Pool) (bsms : Option (List Bsm)) (insns : List SInsn) : Prop where
-  nonempty : 0 < insns.length
-  small : codePos insns insns.length ≤ 65535
-  legal : ∀ i (h : i < insns.length), insns[i].Legal p bsms insns.length (codePos insns) (codePos insns i)
-
-/-- exception table entry: protected range `[start, end_)` (`end_` may be the number of instructions = end of the
-code), handler, and the pool index of the caught class (0 = any) -/
-structure SException where
-  start : Nat
-  end_ : Nat
-  handler : Nat
-  catchCp : Nat
-  catch_ : Option JStr
-  deriving Inhabited
-
-/-- one `LocalVariableTable` / `LocalVariableTypeTable` entry: live range `[start, end_)` in instructions -/
-structure SLv where
-  start : Nat
-  end_ : Nat
-  nameCp : Nat
-  name : JStr
-  descCp : Nat
-  desc : JStr
-  index : Nat
-  deriving Inhabited
-
-/-- `verification_type_info`; `object` with the pool index used, `uninit` with the index of the `new` instruction -/
-inductive SVType where
-  | top | int | float | double | long | null | uninitThis
-  | object (cp : Nat) (c : JStr)
-  | uninit (t : Nat)
-  deriving Inhabited
-
-inductive SFrameKind where
-  | same
-  | same1 (v : SVType)
-  | chop (k : Nat)
-  | append (vs : List SVType)
-  | full (locals stack : List SVType)
-  deriving Inhabited
-
-/-- one `stack_map_frame`: the instruction it describes, the choice between the compact and the extended form
-(`same_frame`/`same_frame_extended`, `same_locals_1_stack_item_frame`/`…_extended`), and its contents -/
-structure SFrame where
-  at_ : Nat
-  ext : Bool
-  kind : SFrameKind
-  deriving Inhabited
-
-/-- the attributes of `Code` inside the proved fragment, in file order; `nameCp` is the pool index of the attribute name -/
-inductive SCodeAttr where
-  | frames (nameCp : Nat) (fs : List SFrame)
-  | lines (nameCp : Nat) (entries : List (Nat × Nat))
-  | lvt (nameCp : Nat) (entries : List SLv)
-  | lvtt (nameCp : Nat) (entries : List SLv)
-  | unknown (nameCp : Nat) (name : JStr) (bytes : Bytes)
-  deriving Inhabited
-
-def SCodeAttr.isFrames : SCodeAttr → Bool
-  | .frames _ _ => true
-  | _ => false
-
-structure CodeLayout where
-  maxStack : Nat
-  maxLocals : Nat
-  insns : List SInsn
-  exceptions : List SException
-  attrs : List SCodeAttr
-  deriving Inhabited
-
-def SException.encode (pos : Nat → Nat) (e : SException) : Bytes :=
-  be16 (pos e.start) ++ be16 (pos e.end_) ++ be16 (pos e.handler) ++ be16 e.catchCp
-
-def SLv.encode (pos : Nat → Nat) (v : SLv) : Bytes :=
-  be16 (pos v.start) ++ be16 (pos v.end_ - pos v.start) ++ be16 v.nameCp ++ be16 v.descCp ++ be16 v.index
-
-/-- `attribute_name_index`, `attribute_length`, body -/
-def attrFrame (nameCp : Nat) (body : Bytes) : Bytes := be16 nameCp ++ be32 body.length ++ body
-
-def SVType.encode (pos : Nat → Nat) : SVType → Bytes
-  | .top => [0] | .int => [1] | .float => [2] | .double => [3] | .long => [4] | .null => [5] | .uninitThis => [6]
-  | .object cp _ => 7 :: be16 cp
-  | .uninit t => 8 :: be16 (pos t)
-
-/-- `offset_delta` of a frame at offset `off` when the previous frame (if any) is at offset `prev` -/
-def frameDelta (prev : Option Nat) (off : Nat) : Nat :=
-  match prev with
-  | none => off
-  | some p => off - p - 1
-
-def SFrame.encode (pos : Nat → Nat) (prev : Option Nat) (f : SFrame) : Bytes :=
-  let d := frameDelta prev (pos f.at_)
-  match f.kind with
-  | .same => if f.ext then 251 :: be16 d else [d]
-  | .same1 v => if f.ext then 247 :: (be16 d ++ v.encode pos) else (64 + d) :: v.encode pos
-  | .chop k => (251 - k) :: be16 d
-  | .append vs => (251 + vs.length) :: (be16 d ++ vs.flatMap (SVType.encode pos))
-  | .full ls ss => 255 :: (be16 d ++ (be16 ls.length ++ ls.flatMap (SVType.encode pos)) ++ (be16 ss.length ++ ss.flatMap (SVType.encode pos)))
-
-def encFrames (pos : Nat → Nat) : Option Nat → List SFrame → Bytes
-  | _, [] => []
-  | prev, f :: fs => f.encode pos prev ++ encFrames pos (some (pos f.at_)) fs
-
-def SCodeAttr.encode (pos : Nat → Nat) : SCodeAttr → Bytes
-  | .frames n fs => attrFrame n (be16 fs.length ++ encFrames pos none fs)
-  | .lines n es => attrFrame n (be16 es.length ++ es.flatMap (fun e => be16 (pos e.1) ++ be16 e.2))
-  | .lvt n es => attrFrame n (be16 es.length ++ es.flatMap (SLv.encode pos))
-  | .lvtt n es => attrFrame n (be16 es.length ++ es.flatMap (SLv.encode pos))
-  | .unknown n _ b => attrFrame n b
-
-def CodeLayout.pos (c : CodeLayout) : Nat → Nat := codePos c.insns
-
-/-- the body of the `Code` attribute -/
-def CodeLayout.encode (c : CodeLayout) : Bytes :=
-  be16 c.maxStack ++ be16 c.maxLocals ++ be32 (c.pos c.insns.length) ++ encInsns c.pos c.insns 0
-    ++ be16 c.exceptions.length ++ c.exceptions.flatMap (SException.encode c.pos)
-    ++ be16 c.attrs.length ++ c.attrs.flatMap (SCodeAttr.encode c.pos)
-
-/-- names the reader gives a meaning to inside `Code`; an `unknown` attribute must not use one of them -/
-def codeAttrNames : List JStr :=
-  [sStackMapTable, sStackMap, sLineNumberTable, sLocalVariableTable, sLocalVariableTypeTable, sRVTA, sRITA]
-
-def SException.Legal (p : Pool) (n : Nat) (e : SException) : Prop :=
-  e.start < n ∧ e.end_ ≤ n ∧ e.handler < n ∧ e.catchCp < 65536 ∧ p.getOptional e.catchCp Pool.getClass = .ok e.catch_
-
-def SLv.Legal (p : Pool) (n : Nat) (v : SLv) : Prop :=
-  v.start < n ∧ v.start ≤ v.end_ ∧ v.end_ ≤ n ∧ v.nameCp < 65536 ∧ v.descCp < 65536 ∧ v.index < 65536 ∧
-    p.getUtf8 v.nameCp = .ok v.name ∧ validUnqualified v.name = true ∧ p.getUtf8 v.descCp = .ok v.desc
-
-def SVType.Legal (p : Pool) (n : Nat) : SVType → Prop
-  | .object cp c => cp < 65536 ∧ p.getClass cp = .ok c
-  | .uninit t => t < n
-  | _ => True
-
-def SFrameKind.Legal (p : Pool) (n : Nat) : SFrameKind → Prop
-  | .same => True
-  | .same1 v => v.Legal p n
-  | .chop k => 1 ≤ k ∧ k ≤ 3
-  | .append vs => 1 ≤ vs.length ∧ vs.length ≤ 3 ∧ ∀ v ∈ vs, v.Legal p n
-  | .full ls ss => ls.length < 65536 ∧ ss.length < 65536 ∧ (∀ v ∈ ls, v.Legal p n) ∧ ∀ v ∈ ss, v.Legal p n
-
-/-- frames describe strictly increasing instructions; the compact forms need `offset_delta ≤ 63` -/
-def framesLegal (p : Pool) (n : Nat) (pos : Nat → Nat) : Option Nat → List SFrame → Prop
-  | _, [] => True
-  | prev, f :: fs =>
-    f.at_ < n ∧ (match prev with | none => True | some i => i < f.at_) ∧ f.kind.Legal p n ∧
-      (f.ext = false → frameDelta (prev.map pos) (pos f.at_) ≤ 63) ∧ framesLegal p n pos (some f.at_) fs
-
-def SCodeAttr.Legal (p : Pool) (n : Nat) (pos : Nat → Nat) : SCodeAttr → Prop
-  | .frames nc fs => nc < 65536 ∧ p.getUtf8 nc = .ok sStackMapTable ∧ fs.length < 65536 ∧ framesLegal p n pos none fs ∧
-      (be16 fs.length ++ encFrames pos none fs).length < 4294967296
-  | .lines nc es => nc < 65536 ∧ p.getUtf8 nc = .ok sLineNumberTable ∧ es.length < 65536 ∧ ∀ e ∈ es, e.1 < n ∧ e.2 < 65536
-  | .lvt nc es => nc < 65536 ∧ p.getUtf8 nc = .ok sLocalVariableTable ∧ es.length < 65536 ∧ ∀ e ∈ es, e.Legal p n
-  | .lvtt nc es => nc < 65536 ∧ p.getUtf8 nc = .ok sLocalVariableTypeTable ∧ es.length < 65536 ∧ ∀ e ∈ es, e.Legal p n
-  | .unknown nc name b => nc < 65536 ∧ p.getUtf8 nc = .ok name ∧ name ∉ codeAttrNames ∧ b.length < 4294967296
-
-/-- number of label look-ups an attribute causes (bounds the label counter) -/
-def SVType.labelRefs : SVType → Nat
-  | .uninit _ => 1
-  | _ => 0
-
-def SFrameKind.labelRefs : SFrameKind → Nat
-  | .same1 v => v.labelRefs
-  | .append vs => (vs.map SVType.labelRefs).sum
-  | .full ls ss => (ls.map SVType.labelRefs).sum + (ss.map SVType.labelRefs).sum
-  | _ => 0
-
-def SCodeAttr.labelRefs : SCodeAttr → Nat
-  | .frames _ fs => (fs.map (fun f => f.kind.labelRefs + 1)).sum
-  | .lines _ es => es.length
-  | .lvt _ es => 2 * es.length
-  | .lvtt _ es => 2 * es.length
-  | .unknown _ _ _ => 0
-
-def CodeLayout.labelRefs (c : CodeLayout) : Nat :=
-  (c.insns.map (fun si => (targetsOf si.insn).length)).sum + 3 * c.exceptions.length + (c.attrs.map SCodeAttr.labelRefs).sum
-
-structure CodeLayout.Legal (p : Pool) (bsms : Option (List Bsm)) (c : CodeLayout) : Prop where
-  code : CodeLegal p bsms c.insns
-  maxStack : c.maxStack < 65536
-  maxLocals : c.maxLocals < 65536
-  nExc : c.exceptions.length < 65536
-  exc : ∀ e ∈ c.exceptions, e.Legal p c.insns.length
-  nAttrs : c.attrs.length < 65536
-  attrs : ∀ a ∈ c.attrs, a.Legal p c.insns.length c.pos
-  /-- at most one `StackMapTable` -/
-  oneFrames : (c.attrs.filter SCodeAttr.isFrames).length ≤ 1
-  /-- the reader numbers labels in a `u16`: fewer than 65535 label references (a method with more panics the reader) -/
-  refs : c.labelRefs < 65535
-
-/-! ### what the layout denotes: the label-free description of the method body -/
-
-def SLv.fact (typeTable : Bool) (v : SLv) : Lv :=
-  if typeTable then ⟨v.start, v.end_, v.name, none, some v.desc, v.index⟩ else ⟨v.start, v.end_, v.name, some v.desc, none, v.index⟩
-
-/-- line table delivered for the attributes seen so far (`none` until the first `LineNumberTable`) -/
-def linesOf : List SCodeAttr → Option (List (Nat × Nat))
-  | [] => none
-  | .lines _ es :: r => some (es ++ (linesOf r).getD [])
-  | _ :: r => linesOf r
-
-def localsOf : List SCodeAttr → Option (List Lv)
-  | [] => none
-  | .lvt _ es :: r => some (es.map (SLv.fact false) ++ (localsOf r).getD [])
-  | .lvtt _ es :: r => some (es.map (SLv.fact true) ++ (localsOf r).getD [])
-  | _ :: r => localsOf r
-
-def unknownsOf : List SCodeAttr → List Attr
-  | [] => []
-  | .unknown _ name b :: r => ⟨name, b⟩ :: unknownsOf r
-  | _ :: r => unknownsOf r
-
-def SVType.fact : SVType → VType
-  | .top => .top | .int => .int | .float => .float | .double => .double | .long => .long | .null => .null
-  | .uninitThis => .uninitThis
-  | .object _ c => .object c
-  | .uninit t => .uninit t
-
-def SFrameKind.fact : SFrameKind → Frame
-  | .same => .same
-  | .same1 v => .same1 v.fact
-  | .chop k => .chop k
-  | .append vs => .append (vs.map SVType.fact)
-  | .full ls ss => .full (ls.map SVType.fact) (ss.map SVType.fact)
-
-/-- the frames of the (at most one) `StackMapTable` -/
-def framesOf : List SCodeAttr → List SFrame
-  | [] => []
-  | .frames _ fs :: _ => fs
-  | _ :: r => framesOf r
-
-/-- instruction entries from index `k` on; `rem` = the frames not yet attached, in increasing order of the instruction
-they describe: a frame is attached to the instruction whose index it names -/
-def factEntries : List SFrame → Nat → List SInsn → List InsnEntry
-  | _, _, [] => []
-  | [], k, si :: r => ⟨none, none, si.insn⟩ :: factEntries [] (k + 1) r
-  | f :: rest, k, si :: r =>
-    if f.at_ = k then ⟨none, some f.kind.fact, si.insn⟩ :: factEntries rest (k + 1) r
-    else ⟨none, none, si.insn⟩ :: factEntries (f :: rest) (k + 1) r
-
-/-- the facts: instructions with their targets as instruction indices and their frames, no label carriers -/
-def CodeLayout.facts (c : CodeLayout) : Code :=
-  { maxStack := c.maxStack, maxLocals := c.maxLocals,
-    insns := factEntries (framesOf c.attrs) 0 c.insns,
-    exceptions := c.exceptions.map (fun e => ⟨e.start, e.end_, e.handler, e.catch_⟩),
-    lastLabel := none,
-    lines := linesOf c.attrs, locals := localsOf c.attrs, rvta := [], ritva := [], attrs := unknownsOf c.attrs }
-
-/-! ## constant pool -/
-
-/-- `cp_info` (JVMS §4.4) -/
-def encPoolEntry : PoolEntry → Bytes
-  | .utf8 s => 1 :: (be16 (Mutf8.encode s).length ++ Mutf8.encode s)
-  | .int v => 3 :: be32 (ofI32 v)
-  | .float b => 4 :: be32 b
-  | .long v => 5 :: be64 (ofI64 v)
-  | .double b => 6 :: be64 b
-  | .cls i => 7 :: be16 i
-  | .str i => 8 :: be16 i
-  | .fieldRef c n => 9 :: (be16 c ++ be16 n)
-  | .methodRef c n => 10 :: (be16 c ++ be16 n)
-  | .ifaceMethodRef c n => 11 :: (be16 c ++ be16 n)
-  | .nameAndType n d => 12 :: (be16 n ++ be16 d)
-  | .methodHandle k i => 15 :: k :: be16 i
-  | .methodType d => 16 :: be16 d
-  | .dynamic b n => 17 :: (be16 b ++ be16 n)
-  | .invokeDynamic b n => 18 :: (be16 b ++ be16 n)
-  | .module i => 19 :: be16 i
-  | .package i => 20 :: be16 i
-
-/-- `Long` and `Double` take two slots -/
-def poolSlots : PoolEntry → Nat
-  | .long _ => 2
-  | .double _ => 2
-  | _ => 1
-
-def inI64 (v : Int) : Prop := -9223372036854775808 ≤ v ∧ v < 9223372036854775808
-
-/-- the fields of an entry fit their widths; strings are encodable and shorter than 65536 bytes -/
-def PoolEntryOk : PoolEntry → Prop
-  | .utf8 s => Mutf8.Encodable s = true ∧ (Mutf8.encode s).length < 65536
-  | .int v => inI32 v
-  | .float b => b < 4294967296
-  | .long v => inI64 v
-  | .double b => b < 18446744073709551616
-  | .cls i => i < 65536
-  | .str i => i < 65536
-  | .fieldRef c n => c < 65536 ∧ n < 65536
-  | .methodRef c n => c < 65536 ∧ n < 65536
-  | .ifaceMethodRef c n => c < 65536 ∧ n < 65536
-  | .nameAndType n d => n < 65536 ∧ d < 65536
-  | .methodHandle k i => k < 256 ∧ i < 65536
-  | .methodType d => d < 65536
-  | .dynamic b n => b < 65536 ∧ n < 65536
-  | .invokeDynamic b n => b < 65536 ∧ n < 65536
-  | .module i => i < 65536
-  | .package i => i < 65536
-
-/-- the slots the entries occupy, after slot 0 -/
-def poolSlotsOf (es : List PoolEntry) : List (Option PoolEntry) :=
-  es.flatMap (fun e => if poolSlots e = 2 then [some e, none] else [some e])
-
-/-- the indexable table a list of entries denotes: slot 0 and the slot after a `Long`/`Double` are unusable -/
-def poolTable (es : List PoolEntry) : Pool := none :: poolSlotsOf es
-
-def poolCount (es : List PoolEntry) : Nat := 1 + (es.map poolSlots).sum
-
-/-- `constant_pool_count` and the entries -/
-def encPool (es : List PoolEntry) : Bytes := be16 (poolCount es) ++ es.flatMap encPoolEntry
-
 /-! ## annotations (JVMS §4.7.16) -/
 
 mutual
@@ -612,6 +299,374 @@ end
 /-- body of a `Runtime(In)VisibleAnnotations` attribute -/
 def encAnnos (as : List SAnno) : Bytes := be16 as.length ++ as.flatMap SAnno.encode
 
+/-- `type_path`: (kind 0..3, argument index; the index is 0 unless the kind is 3) -/
+def encTypePath (path : List (Nat × Nat)) : Bytes := path.length :: path.flatMap (fun q => [q.1, q.2])
+
+def typePathOk (path : List (Nat × Nat)) : Prop :=
+  path.length < 256 ∧ ∀ q ∈ path, (q.1 ≤ 2 ∧ q.2 = 0) ∨ (q.1 = 3 ∧ q.2 < 256)
+
+/-! ## the whole `Code` attribute -/
+
+/-- all instructions of a method are legally encoded; the code array is non-empty and shorter than 65536 bytes -/
+structure CodeLegal (p : Pool) (bsms : Option (List Bsm)) (insns : List SInsn) : Prop where
+  nonempty : 0 < insns.length
+  small : codePos insns insns.length ≤ 65535
+  legal : ∀ i (h : i < insns.length), insns[i].Legal p bsms insns.length (codePos insns) (codePos insns i)
+
+/-- exception table entry: protected range `[start, end_)` (`end_` may be the number of instructions = end of the
+code), handler, and the pool index of the caught class (0 = any) -/
+structure SException where
+  start : Nat
+  end_ : Nat
+  handler : Nat
+  catchCp : Nat
+  catch_ : Option JStr
+  deriving Inhabited
+
+/-- one `LocalVariableTable` / `LocalVariableTypeTable` entry: live range `[start, end_)` in instructions -/
+structure SLv where
+  start : Nat
+  end_ : Nat
+  nameCp : Nat
+  name : JStr
+  descCp : Nat
+  desc : JStr
+  index : Nat
+  deriving Inhabited
+
+/-- `verification_type_info`; `object` with the pool index used, `uninit` with the index of the `new` instruction -/
+inductive SVType where
+  | top | int | float | double | long | null | uninitThis
+  | object (cp : Nat) (c : JStr)
+  | uninit (t : Nat)
+  deriving Inhabited
+
+inductive SFrameKind where
+  | same
+  | same1 (v : SVType)
+  | chop (k : Nat)
+  | append (vs : List SVType)
+  | full (locals stack : List SVType)
+  deriving Inhabited
+
+/-- one `stack_map_frame`: the instruction it describes, the choice between the compact and the extended form
+(`same_frame`/`same_frame_extended`, `same_locals_1_stack_item_frame`/`…_extended`), and its contents -/
+structure SFrame where
+  at_ : Nat
+  ext : Bool
+  kind : SFrameKind
+  deriving Inhabited
+
+/-- a type annotation inside `Code`: its target names instructions by index (`localVar`: live ranges `[start, end)`) -/
+structure SCodeTypeAnno where
+  target : Target
+  path : List (Nat × Nat)
+  anno : SAnno
+  deriving Inhabited
+
+/-- `target_type` and `target_info` of the targets admissible inside `Code` -/
+def encCodeTarget (pos : Nat → Nat) : Target → Bytes
+  | .localVar tag tbl => tag :: (be16 tbl.length ++ tbl.flatMap (fun e => be16 (pos e.1) ++ be16 (pos e.2.1 - pos e.1) ++ be16 e.2.2))
+  | .exceptionParam i => 0x42 :: be16 i
+  | .offset tag t => tag :: be16 (pos t)
+  | .offsetArg tag t i => tag :: (be16 (pos t) ++ [i])
+  | _ => []
+
+def codeTargetOk (n : Nat) : Target → Prop
+  | .localVar tag tbl => (tag = 0x40 ∨ tag = 0x41) ∧ tbl.length < 65536 ∧ ∀ e ∈ tbl, e.1 < n ∧ e.1 ≤ e.2.1 ∧ e.2.1 ≤ n ∧ e.2.2 < 65536
+  | .exceptionParam i => i < 65536
+  | .offset tag t => 0x43 ≤ tag ∧ tag ≤ 0x46 ∧ t < n
+  | .offsetArg tag t i => 0x47 ≤ tag ∧ tag ≤ 0x4b ∧ t < n ∧ i < 256
+  | _ => False
+
+def codeTargetRefs : Target → Nat
+  | .localVar _ tbl => 2 * tbl.length
+  | .offset _ _ => 1
+  | .offsetArg _ _ _ => 1
+  | _ => 0
+
+def SCodeTypeAnno.encode (pos : Nat → Nat) (a : SCodeTypeAnno) : Bytes :=
+  encCodeTarget pos a.target ++ encTypePath a.path ++ a.anno.encode
+
+def SCodeTypeAnno.Legal (p : Pool) (n : Nat) (a : SCodeTypeAnno) : Prop :=
+  codeTargetOk n a.target ∧ typePathOk a.path ∧ a.anno.Legal p
+
+def SCodeTypeAnno.fact (a : SCodeTypeAnno) : TypeAnno := ⟨a.target, a.path, a.anno.fact⟩
+
+/-- the attributes of `Code` inside the proved fragment, in file order; `nameCp` is the pool index of the attribute name -/
+inductive SCodeAttr where
+  | frames (nameCp : Nat) (fs : List SFrame)
+  | lines (nameCp : Nat) (entries : List (Nat × Nat))
+  | lvt (nameCp : Nat) (entries : List SLv)
+  | lvtt (nameCp : Nat) (entries : List SLv)
+  /-- `RuntimeVisibleTypeAnnotations` (`visible`) / `RuntimeInvisibleTypeAnnotations` -/
+  | typeAnnos (nameCp : Nat) (visible : Bool) (as : List SCodeTypeAnno)
+  | unknown (nameCp : Nat) (name : JStr) (bytes : Bytes)
+  deriving Inhabited
+
+def SCodeAttr.isFrames : SCodeAttr → Bool
+  | .frames _ _ => true
+  | _ => false
+
+structure CodeLayout where
+  maxStack : Nat
+  maxLocals : Nat
+  insns : List SInsn
+  exceptions : List SException
+  attrs : List SCodeAttr
+  deriving Inhabited
+
+def SException.encode (pos : Nat → Nat) (e : SException) : Bytes :=
+  be16 (pos e.start) ++ be16 (pos e.end_) ++ be16 (pos e.handler) ++ be16 e.catchCp
+
+def SLv.encode (pos : Nat → Nat) (v : SLv) : Bytes :=
+  be16 (pos v.start) ++ be16 (pos v.end_ - pos v.start) ++ be16 v.nameCp ++ be16 v.descCp ++ be16 v.index
+
+/-- `attribute_name_index`, `attribute_length`, body -/
+def attrFrame (nameCp : Nat) (body : Bytes) : Bytes := be16 nameCp ++ be32 body.length ++ body
+
+def SVType.encode (pos : Nat → Nat) : SVType → Bytes
+  | .top => [0] | .int => [1] | .float => [2] | .double => [3] | .long => [4] | .null => [5] | .uninitThis => [6]
+  | .object cp _ => 7 :: be16 cp
+  | .uninit t => 8 :: be16 (pos t)
+
+/-- `offset_delta` of a frame at offset `off` when the previous frame (if any) is at offset `prev` -/
+def frameDelta (prev : Option Nat) (off : Nat) : Nat :=
+  match prev with
+  | none => off
+  | some p => off - p - 1
+
+def SFrame.encode (pos : Nat → Nat) (prev : Option Nat) (f : SFrame) : Bytes :=
+  let d := frameDelta prev (pos f.at_)
+  match f.kind with
+  | .same => if f.ext then 251 :: be16 d else [d]
+  | .same1 v => if f.ext then 247 :: (be16 d ++ v.encode pos) else (64 + d) :: v.encode pos
+  | .chop k => (251 - k) :: be16 d
+  | .append vs => (251 + vs.length) :: (be16 d ++ vs.flatMap (SVType.encode pos))
+  | .full ls ss => 255 :: (be16 d ++ (be16 ls.length ++ ls.flatMap (SVType.encode pos)) ++ (be16 ss.length ++ ss.flatMap (SVType.encode pos)))
+
+def encFrames (pos : Nat → Nat) : Option Nat → List SFrame → Bytes
+  | _, [] => []
+  | prev, f :: fs => f.encode pos prev ++ encFrames pos (some (pos f.at_)) fs
+
+def SCodeAttr.encode (pos : Nat → Nat) : SCodeAttr → Bytes
+  | .frames n fs => attrFrame n (be16 fs.length ++ encFrames pos none fs)
+  | .lines n es => attrFrame n (be16 es.length ++ es.flatMap (fun e => be16 (pos e.1) ++ be16 e.2))
+  | .lvt n es => attrFrame n (be16 es.length ++ es.flatMap (SLv.encode pos))
+  | .lvtt n es => attrFrame n (be16 es.length ++ es.flatMap (SLv.encode pos))
+  | .typeAnnos n _ as => attrFrame n (be16 as.length ++ as.flatMap (SCodeTypeAnno.encode pos))
+  | .unknown n _ b => attrFrame n b
+
+def CodeLayout.pos (c : CodeLayout) : Nat → Nat := codePos c.insns
+
+/-- the body of the `Code` attribute -/
+def CodeLayout.encode (c : CodeLayout) : Bytes :=
+  be16 c.maxStack ++ be16 c.maxLocals ++ be32 (c.pos c.insns.length) ++ encInsns c.pos c.insns 0
+    ++ be16 c.exceptions.length ++ c.exceptions.flatMap (SException.encode c.pos)
+    ++ be16 c.attrs.length ++ c.attrs.flatMap (SCodeAttr.encode c.pos)
+
+/-- names the reader gives a meaning to inside `Code`; an `unknown` attribute must not use one of them -/
+def codeAttrNames : List JStr :=
+  [sStackMapTable, sStackMap, sLineNumberTable, sLocalVariableTable, sLocalVariableTypeTable, sRVTA, sRITA]
+
+def SException.Legal (p : Pool) (n : Nat) (e : SException) : Prop :=
+  e.start < n ∧ e.end_ ≤ n ∧ e.handler < n ∧ e.catchCp < 65536 ∧ p.getOptional e.catchCp Pool.getClass = .ok e.catch_
+
+def SLv.Legal (p : Pool) (n : Nat) (v : SLv) : Prop :=
+  v.start < n ∧ v.start ≤ v.end_ ∧ v.end_ ≤ n ∧ v.nameCp < 65536 ∧ v.descCp < 65536 ∧ v.index < 65536 ∧
+    p.getUtf8 v.nameCp = .ok v.name ∧ validUnqualified v.name = true ∧ p.getUtf8 v.descCp = .ok v.desc
+
+def SVType.Legal (p : Pool) (n : Nat) : SVType → Prop
+  | .object cp c => cp < 65536 ∧ p.getClass cp = .ok c
+  | .uninit t => t < n
+  | _ => True
+
+def SFrameKind.Legal (p : Pool) (n : Nat) : SFrameKind → Prop
+  | .same => True
+  | .same1 v => v.Legal p n
+  | .chop k => 1 ≤ k ∧ k ≤ 3
+  | .append vs => 1 ≤ vs.length ∧ vs.length ≤ 3 ∧ ∀ v ∈ vs, v.Legal p n
+  | .full ls ss => ls.length < 65536 ∧ ss.length < 65536 ∧ (∀ v ∈ ls, v.Legal p n) ∧ ∀ v ∈ ss, v.Legal p n
+
+/-- frames describe strictly increasing instructions; the compact forms need `offset_delta ≤ 63` -/
+def framesLegal (p : Pool) (n : Nat) (pos : Nat → Nat) : Option Nat → List SFrame → Prop
+  | _, [] => True
+  | prev, f :: fs =>
+    f.at_ < n ∧ (match prev with | none => True | some i => i < f.at_) ∧ f.kind.Legal p n ∧
+      (f.ext = false → frameDelta (prev.map pos) (pos f.at_) ≤ 63) ∧ framesLegal p n pos (some f.at_) fs
+
+def SCodeAttr.Legal (p : Pool) (n : Nat) (pos : Nat → Nat) : SCodeAttr → Prop
+  | .frames nc fs => nc < 65536 ∧ p.getUtf8 nc = .ok sStackMapTable ∧ fs.length < 65536 ∧ framesLegal p n pos none fs ∧
+      (be16 fs.length ++ encFrames pos none fs).length < 4294967296
+  | .lines nc es => nc < 65536 ∧ p.getUtf8 nc = .ok sLineNumberTable ∧ es.length < 65536 ∧ ∀ e ∈ es, e.1 < n ∧ e.2 < 65536
+  | .lvt nc es => nc < 65536 ∧ p.getUtf8 nc = .ok sLocalVariableTable ∧ es.length < 65536 ∧ ∀ e ∈ es, e.Legal p n
+  | .lvtt nc es => nc < 65536 ∧ p.getUtf8 nc = .ok sLocalVariableTypeTable ∧ es.length < 65536 ∧ ∀ e ∈ es, e.Legal p n
+  | .typeAnnos nc visible as => nc < 65536 ∧ p.getUtf8 nc = .ok (if visible then sRVTA else sRITA) ∧ as.length < 65536 ∧
+      (∀ a ∈ as, a.Legal p n) ∧ (be16 as.length ++ as.flatMap (SCodeTypeAnno.encode pos)).length < 4294967296
+  | .unknown nc name b => nc < 65536 ∧ p.getUtf8 nc = .ok name ∧ name ∉ codeAttrNames ∧ b.length < 4294967296
+
+/-- number of label look-ups an attribute causes (bounds the label counter) -/
+def SVType.labelRefs : SVType → Nat
+  | .uninit _ => 1
+  | _ => 0
+
+def SFrameKind.labelRefs : SFrameKind → Nat
+  | .same1 v => v.labelRefs
+  | .append vs => (vs.map SVType.labelRefs).sum
+  | .full ls ss => (ls.map SVType.labelRefs).sum + (ss.map SVType.labelRefs).sum
+  | _ => 0
+
+def SCodeAttr.labelRefs : SCodeAttr → Nat
+  | .frames _ fs => (fs.map (fun f => f.kind.labelRefs + 1)).sum
+  | .lines _ es => es.length
+  | .lvt _ es => 2 * es.length
+  | .lvtt _ es => 2 * es.length
+  | .typeAnnos _ _ as => (as.map (fun a => codeTargetRefs a.target)).sum
+  | .unknown _ _ _ => 0
+
+def CodeLayout.labelRefs (c : CodeLayout) : Nat :=
+  (c.insns.map (fun si => (targetsOf si.insn).length)).sum + 3 * c.exceptions.length + (c.attrs.map SCodeAttr.labelRefs).sum
+
+structure CodeLayout.Legal (p : Pool) (bsms : Option (List Bsm)) (c : CodeLayout) : Prop where
+  code : CodeLegal p bsms c.insns
+  maxStack : c.maxStack < 65536
+  maxLocals : c.maxLocals < 65536
+  nExc : c.exceptions.length < 65536
+  exc : ∀ e ∈ c.exceptions, e.Legal p c.insns.length
+  nAttrs : c.attrs.length < 65536
+  attrs : ∀ a ∈ c.attrs, a.Legal p c.insns.length c.pos
+  /-- at most one `StackMapTable` -/
+  oneFrames : (c.attrs.filter SCodeAttr.isFrames).length ≤ 1
+  /-- the reader numbers labels in a `u16`: fewer than 65535 label references (a method with more panics the reader) -/
+  refs : c.labelRefs < 65535
+
+/-! ### what the layout denotes: the label-free description of the method body -/
+
+def SLv.fact (typeTable : Bool) (v : SLv) : Lv :=
+  if typeTable then ⟨v.start, v.end_, v.name, none, some v.desc, v.index⟩ else ⟨v.start, v.end_, v.name, some v.desc, none, v.index⟩
+
+/-- line table delivered for the attributes seen so far (`none` until the first `LineNumberTable`) -/
+def linesOf : List SCodeAttr → Option (List (Nat × Nat))
+  | [] => none
+  | .lines _ es :: r => some (es ++ (linesOf r).getD [])
+  | _ :: r => linesOf r
+
+def localsOf : List SCodeAttr → Option (List Lv)
+  | [] => none
+  | .lvt _ es :: r => some (es.map (SLv.fact false) ++ (localsOf r).getD [])
+  | .lvtt _ es :: r => some (es.map (SLv.fact true) ++ (localsOf r).getD [])
+  | _ :: r => localsOf r
+
+/-- the type annotations of the given visibility, concatenated in file order -/
+def typeAnnosOf (visible : Bool) : List SCodeAttr → List TypeAnno
+  | [] => []
+  | .typeAnnos _ v as :: r => (if v = visible then as.map SCodeTypeAnno.fact else []) ++ typeAnnosOf visible r
+  | _ :: r => typeAnnosOf visible r
+
+def unknownsOf : List SCodeAttr → List Attr
+  | [] => []
+  | .unknown _ name b :: r => ⟨name, b⟩ :: unknownsOf r
+  | _ :: r => unknownsOf r
+
+def SVType.fact : SVType → VType
+  | .top => .top | .int => .int | .float => .float | .double => .double | .long => .long | .null => .null
+  | .uninitThis => .uninitThis
+  | .object _ c => .object c
+  | .uninit t => .uninit t
+
+def SFrameKind.fact : SFrameKind → Frame
+  | .same => .same
+  | .same1 v => .same1 v.fact
+  | .chop k => .chop k
+  | .append vs => .append (vs.map SVType.fact)
+  | .full ls ss => .full (ls.map SVType.fact) (ss.map SVType.fact)
+
+/-- the frames of the (at most one) `StackMapTable` -/
+def framesOf : List SCodeAttr → List SFrame
+  | [] => []
+  | .frames _ fs :: _ => fs
+  | _ :: r => framesOf r
+
+/-- instruction entries from index `k` on; `rem` = the frames not yet attached, in increasing order of the instruction
+they describe: a frame is attached to the instruction whose index it names -/
+def factEntries : List SFrame → Nat → List SInsn → List InsnEntry
+  | _, _, [] => []
+  | [], k, si :: r => ⟨none, none, si.insn⟩ :: factEntries [] (k + 1) r
+  | f :: rest, k, si :: r =>
+    if f.at_ = k then ⟨none, some f.kind.fact, si.insn⟩ :: factEntries rest (k + 1) r
+    else ⟨none, none, si.insn⟩ :: factEntries (f :: rest) (k + 1) r
+
+/-- the facts: instructions with their targets as instruction indices and their frames, no label carriers -/
+def CodeLayout.facts (c : CodeLayout) : Code :=
+  { maxStack := c.maxStack, maxLocals := c.maxLocals,
+    insns := factEntries (framesOf c.attrs) 0 c.insns,
+    exceptions := c.exceptions.map (fun e => ⟨e.start, e.end_, e.handler, e.catch_⟩),
+    lastLabel := none,
+    lines := linesOf c.attrs, locals := localsOf c.attrs, rvta := typeAnnosOf true c.attrs,
+    ritva := typeAnnosOf false c.attrs, attrs := unknownsOf c.attrs }
+
+/-! ## constant pool -/
+
+/-- `cp_info` (JVMS §4.4) -/
+def encPoolEntry : PoolEntry → Bytes
+  | .utf8 s => 1 :: (be16 (Mutf8.encode s).length ++ Mutf8.encode s)
+  | .int v => 3 :: be32 (ofI32 v)
+  | .float b => 4 :: be32 b
+  | .long v => 5 :: be64 (ofI64 v)
+  | .double b => 6 :: be64 b
+  | .cls i => 7 :: be16 i
+  | .str i => 8 :: be16 i
+  | .fieldRef c n => 9 :: (be16 c ++ be16 n)
+  | .methodRef c n => 10 :: (be16 c ++ be16 n)
+  | .ifaceMethodRef c n => 11 :: (be16 c ++ be16 n)
+  | .nameAndType n d => 12 :: (be16 n ++ be16 d)
+  | .methodHandle k i => 15 :: k :: be16 i
+  | .methodType d => 16 :: be16 d
+  | .dynamic b n => 17 :: (be16 b ++ be16 n)
+  | .invokeDynamic b n => 18 :: (be16 b ++ be16 n)
+  | .module i => 19 :: be16 i
+  | .package i => 20 :: be16 i
+
+/-- `Long` and `Double` take two slots -/
+def poolSlots : PoolEntry → Nat
+  | .long _ => 2
+  | .double _ => 2
+  | _ => 1
+
+def inI64 (v : Int) : Prop := -9223372036854775808 ≤ v ∧ v < 9223372036854775808
+
+/-- the fields of an entry fit their widths; strings are encodable and shorter than 65536 bytes -/
+def PoolEntryOk : PoolEntry → Prop
+  | .utf8 s => Mutf8.Encodable s = true ∧ (Mutf8.encode s).length < 65536
+  | .int v => inI32 v
+  | .float b => b < 4294967296
+  | .long v => inI64 v
+  | .double b => b < 18446744073709551616
+  | .cls i => i < 65536
+  | .str i => i < 65536
+  | .fieldRef c n => c < 65536 ∧ n < 65536
+  | .methodRef c n => c < 65536 ∧ n < 65536
+  | .ifaceMethodRef c n => c < 65536 ∧ n < 65536
+  | .nameAndType n d => n < 65536 ∧ d < 65536
+  | .methodHandle k i => k < 256 ∧ i < 65536
+  | .methodType d => d < 65536
+  | .dynamic b n => b < 65536 ∧ n < 65536
+  | .invokeDynamic b n => b < 65536 ∧ n < 65536
+  | .module i => i < 65536
+  | .package i => i < 65536
+
+/-- the slots the entries occupy, after slot 0 -/
+def poolSlotsOf (es : List PoolEntry) : List (Option PoolEntry) :=
+  es.flatMap (fun e => if poolSlots e = 2 then [some e, none] else [some e])
+
+/-- the indexable table a list of entries denotes: slot 0 and the slot after a `Long`/`Double` are unusable -/
+def poolTable (es : List PoolEntry) : Pool := none :: poolSlotsOf es
+
+def poolCount (es : List PoolEntry) : Nat := 1 + (es.map poolSlots).sum
+
+/-- `constant_pool_count` and the entries -/
+def encPool (es : List PoolEntry) : Bytes := be16 (poolCount es) ++ es.flatMap encPoolEntry
+
 /-! ## type annotations outside `Code` (JVMS §4.7.20) -/
 
 /-- who owns the attribute: decides which `target_type`s are admissible -/
@@ -646,12 +701,6 @@ def targetOk : Owner → Target → Prop
   | .method, .formalParam i => i < 256
   | .method, .throws i => i < 65536
   | _, _ => False
-
-/-- `type_path`: (kind 0..3, argument index; the index is 0 unless the kind is 3) -/
-def encTypePath (path : List (Nat × Nat)) : Bytes := path.length :: path.flatMap (fun q => [q.1, q.2])
-
-def typePathOk (path : List (Nat × Nat)) : Prop :=
-  path.length < 256 ∧ ∀ q ∈ path, (q.1 ≤ 2 ∧ q.2 = 0) ∨ (q.1 = 3 ∧ q.2 < 256)
 
 structure STypeAnno where
   target : Target
